@@ -1136,9 +1136,9 @@ func c09pruning(c *Ctx, r *Result) {
 			n++
 			p, rel, okF := env.condFact(ifi.Cond, i == 0)
 			coord := P("start", 1, "i<count>*stride", 1, "i<block>", 1)
-			upper := coord.add(P("chunkend", 1), -1)                                  // coord - chunkEnd >= 0
+			upper := coord.add(P("chunkend", 1), -1)                                             // coord - chunkEnd >= 0
 			lower := P("chunkstart", 1).add(P("start", 1, "i<count>*stride", 1, "block", 1), -1) // chunkStart - (blockStart + block) >= 0
-			lower2 := lower.add(polyConst(1), 1)                                              // chunkStart - (blockStart + block - 1) - 1 >= 0  (same thing written with <)
+			lower2 := lower.add(polyConst(1), 1)                                                 // chunkStart - (blockStart + block - 1) - 1 >= 0  (same thing written with <)
 			ok := okF && rel == ">=0" && (p.equal(upper) || p.equal(lower) || p.equal(lower2.add(polyConst(1), -1)))
 			what := "?"
 			if okF {
